@@ -71,6 +71,16 @@ func runC14(c *eng.Ctx) {
 			return len(a) == 3 && (a[1] == "prev.ST" || a[1] == "prevST") && a[2] == "firstST"
 		})
 	}
+	// integer and float histogram codecs are near-copies: they stay in step
+	c.SiblingsEqual("R3", R+"Encoder.histogramSamplesV2", R+"Encoder.floatHistogramSamplesV2", sibRenames, nil)
+	c.SiblingsEqual("R3", R+"Encoder.histogramSamplesV1", R+"Encoder.floatHistogramSamplesV1", sibRenames, nil)
+	c.SiblingsEqual("R3", R+"Encoder.customBucketsHistogramSamplesV1", R+"Encoder.customBucketsFloatHistogramSamplesV1", sibRenames, nil)
+	c.SiblingsEqual("R3", R+"Decoder.histogramSamplesV1", R+"Decoder.floatHistogramSamplesV1", sibRenames, nil)
+	c.SiblingsEqual("R3", R+"Decoder.histogramSamplesV2", R+"Decoder.floatHistogramSamplesV2", append([][2]string{{`\brfh\b`, "rh"}}, sibRenames...), []eng.SiblingDiff{
+		{A: "var (", B: "", Why: "declaration style"}, {A: ")", B: "", Why: "declaration style"},
+		{A: "prevRef\tchunks.HeadSeriesRef", B: "var prevRef chunks.HeadSeriesRef", Why: "declaration style"},
+		{A: "prevST\tint64", B: "var prevST int64", Why: "declaration style"},
+	})
 	// ---- R4 the exponential / custom-bucket split loses nothing ----
 	for _, fn := range []string{"Encoder.histogramSamplesV1", "Encoder.floatHistogramSamplesV1"} {
 		f := c.Fn(R + fn)
